@@ -2,6 +2,7 @@
 pipe), SpawnProcess._collect_result/join/result/exception/done, Thread.run/join/result/exception/done and
 multiprocessing.wait / as_completed; the OS facts (pipe EOF position, exit code) are stubs chosen by the solver."""
 import concurrent.futures
+import os
 import pickle
 
 import mpservice.multiprocessing as mpm
@@ -85,6 +86,15 @@ class DoneThread:
         pass
 
 
+def _ready_fd():
+    r, w = os.pipe()
+    os.close(w)
+    return r
+
+
+_GONE = _ready_fd()   # a descriptor at end-of-file: multiprocessing.connection.wait() reports it ready at once
+
+
 class P(SpawnProcess):
     """SpawnProcess with the OS-level facts stubbed: never spawns; exitcode as given."""
     _exit = None
@@ -94,6 +104,10 @@ class P(SpawnProcess):
     @property
     def exitcode(self):
         return self._exit
+
+    @property
+    def sentinel(self):
+        return _GONE   # the child is gone: its sentinel is ready
 
     @staticmethod
     def handle_exception(exc):
@@ -123,6 +137,11 @@ def parent_after(msgs, eof_at, exitcode):
     except BaseException as e:  # the collector thread would die with this
         p._collector_died = e
     return p
+
+
+def collector_survived(p):
+    """The collector thread must run to its end whatever the child did (it also ends the log reader)."""
+    return getattr(p, '_collector_died', None) is None and p._logger_queue_.items[-1:] == [None]
 
 
 def accessors_agree(p, first, expect):
@@ -189,7 +208,7 @@ def check_process_outcome(kind: int, idx: int, first: int) -> bool:
         expect = ('value', None)
     else:
         expect = ('error', SystemExit, (3,) if kind == 4 else ('msg',))
-    return accessors_agree(p, first, expect)
+    return collector_survived(p) and accessors_agree(p, first, expect)
 
 
 def check_process_killed(kind: int, idx: int, phase: int, sig: int, first: int) -> bool:
@@ -208,7 +227,7 @@ def check_process_killed(kind: int, idx: int, phase: int, sig: int, first: int) 
         expect = ('value', VALUES[idx % len(VALUES)] if (phase == 1 and kind == 0) else None)
     else:
         expect = ('oserror', sig)
-    return accessors_agree(p, first, expect)
+    return collector_survived(p) and accessors_agree(p, first, expect)
 
 
 def check_thread_outcome(kind: int, idx: int, first: int) -> bool:
